@@ -7,6 +7,7 @@
 // Callee contracts below are *assumed* here and discharged on the real callee elsewhere (the
 // evidence links the discharging unit); `external_body` items are listed by the scanner.
 // ===================================================================================
+#[derive(Clone, Copy)]
 pub struct Span { pub start: usize, pub end: usize }
 pub struct Msg { pub id: u64 }
 pub struct Opaque { pub id: u64 }
@@ -20,6 +21,19 @@ impl Value {
     pub fn clone(&self) -> (r: Value)
         ensures r == *self,
     { unimplemented!() }
+}
+
+impl Str {
+    #[verifier::external_body]
+    pub fn to_owned(&self) -> (r: Str) ensures r == *self { unimplemented!() }
+    #[verifier::external_body]
+    pub fn into_value(self) -> (r: Value) { unimplemented!() }
+}
+impl KeyString {
+    #[verifier::external_body]
+    pub fn clone(&self) -> (r: KeyString) ensures r == *self { unimplemented!() }
+    #[verifier::external_body]
+    pub fn into_value(self) -> (r: Value) { unimplemented!() }
 }
 
 pub enum ExpressionError {
@@ -48,6 +62,7 @@ pub enum Ev {
     Eval(int, Resolved),       // child expression `id` was evaluated with this outcome
     RunClosure(Resolved),      // the closure body ran with this outcome
     VarWrite(u64),             // runtime variable store written by this node (ident id)
+    Write(int, Value),         // assignment target `id` (variable or event path) was written with this value
     TargetInsert(int),
     TargetGet(int),
     TargetRemove(int),
